@@ -17,8 +17,8 @@ ASSUMPTIONS = [
     "generators have distinct priorities per path (ties are not specified)",
     "the device file differ is annet.diff.UnifiedFileDiffer (the shipped default implementation), PC hardware, software string without Cumulus/SONiC",
 ]
-FLOORS = {"quick": {"listing_orders": 3000, "jobs_parsed": 3000, "shared_paths": 500, "forced_runs": 500, "diffs_checked": 1500},
-          "thorough": {"listing_orders": 120000, "jobs_parsed": 120000, "shared_paths": 20000, "forced_runs": 20000, "diffs_checked": 60000}}
+FLOORS = {"quick": {"listing_orders": 3000, "jobs_parsed": 3000, "shared_paths": 500, "forced_runs": 500, "diffs_checked": 1500, "cases_with_unsupported_generators": 400},
+          "thorough": {"listing_orders": 120000, "jobs_parsed": 120000, "shared_paths": 20000, "forced_runs": 20000, "diffs_checked": 60000, "cases_with_unsupported_generators": 15000}}
 PATHS = ["/etc/a.conf", "/etc/b/b.conf", "/etc/c"]
 KNOWN_NL = "C19/upload-decision-blind-to-trailing-newline"
 KNOWN_EMPTY = "C19/upload-decision-blind-to-missing-vs-empty"
@@ -54,10 +54,15 @@ class _Driver:
         raise AssertionError("not a CLI device")
 
 
-def make_entire(name, path, prio, output, reload, safe):
-    from annet.generators import Entire
+def make_entire(name, path, prio, output, reload, safe, unsupported=False):
+    from annet.generators import Entire, NotSupportedDevice
     from vf.harness_gen import FakeStorage
-    ns = {"path": lambda self, device, _p=path: _p, "run": lambda self, device, _o=output: _o,
+
+    def run(self, device, _o=output):
+        if unsupported:
+            raise NotSupportedDevice("not for this device")
+        return _o
+    ns = {"path": lambda self, device, _p=path: _p, "run": run,
           "reload": lambda self, device, _r=reload: _r, "is_safe": lambda self, device, _s=safe: _s, "prio": prio, "TAGS": []}
     cls = types.new_class(name, (Entire,), {}, lambda d: d.update(ns))
     return cls(storage=FakeStorage())
@@ -80,7 +85,7 @@ def gen_case(rng):
     return gens, old
 
 
-def check_case(seed, acc):
+def check_case(seed, acc, unsupported=False):
     import annet.deploy as AD
     from annet import api, cli_args
     from annet.generators import run_file_generators
@@ -91,11 +96,18 @@ def check_case(seed, acc):
     setup_connectors()
     rng = random.Random(seed)
     gens_spec, old = gen_case(rng)
+    if unsupported:
+        # some generators do not support this device (their run() says so): they neither produce nor shadow anything
+        for g in gens_spec:
+            g["unsupported"] = rng.random() < 0.4
+        acc.count("cases_with_unsupported_generators")
     dev = H.FakeDevice(HardwareView("PC", "Linux"), pc=True)
-    w = {"seed": seed, "generators": gens_spec, "old_files": old}
+    w = {"seed": seed, "unsupported": unsupported, "generators": gens_spec, "old_files": old}
     # expected winner per path
     exp = {}
     for g in gens_spec:
+        if g.get("unsupported"):
+            continue
         if g["path"] not in exp or g["prio"] > exp[g["path"]]["prio"]:
             exp[g["path"]] = g
     shared = len({g["path"] for g in gens_spec}) < len(gens_spec)
@@ -210,7 +222,7 @@ def check_case(seed, acc):
 
 def run_shard(spec, acc):
     if spec["mode"] == "replay":
-        check_case(spec["witness"]["seed"], acc)
+        check_case(spec["witness"]["seed"], acc, unsupported=bool(spec["witness"].get("unsupported")))
         return
     tier, k, n = spec["tier"], spec["shard"], spec["nshards"]
     total = 2400 if tier == "quick" else 90000
@@ -220,3 +232,5 @@ def run_shard(spec, acc):
         check_case(s, acc)
         if j < 2:
             acc.sample({"seed": s, "case": gen_case(random.Random(s))[0]})
+        if j % 4 == 3:
+            check_case(rng.randrange(1 << 48), acc, unsupported=True)
